@@ -151,7 +151,7 @@ func c05Monitor(run *ev.Run, spec world.Spec) hMonitor {
 			}
 		}
 		// logout expires the cookie
-		if kind == "logout" && o.Res.Err == "" && !o.Res.OK && o.Res.HTTPStatus == 302 {
+		if kind == "logout" && o.Res.Err == "" && !o.Res.OK && world.IsRedirect(o.Res.HTTPStatus) {
 			run.Class("logout|presented=" + presented)
 			found := false
 			for _, sc := range o.Res.SetCookies {
